@@ -153,6 +153,14 @@ class VarsOnly:
         pass
 
 
+class SlotsOnlySub(SlotsOnly):
+    """a subclass that only adds behaviour: it does not declare __slots__ itself (so it also has a __dict__), the slots
+    of its base are still its fields - once each"""
+
+    def total(self):
+        return 0
+
+
 @dataclasses.dataclass
 class DCMapNames:
     """fields named like the mapping API, with class-level defaults (so the names are attributes of the class)"""
@@ -266,8 +274,8 @@ def case(draw):
         return {"cat": cat, "kind": kind, "content": list(d.items())}
     if cat == "structured":
         kind = draw(st.sampled_from(["DC", "DCFrozen", "DCSlots", "Plain", "SlotsOnly", "VarsOnly", "SlotsAnn", "SlotsAnnSub", "SlotsReordered", "DCSub", "DCMapNames", "SlotsMapNames",
-                                     "PlainBadHint", "SlotsBadHint", "PlainBadHintSub", "SigKwOnly", "SigKwOnlySlots"]))
-        n = {"PlainBadHint": 3, "SlotsBadHint": 3, "PlainBadHintSub": 3, "SigKwOnly": 3, "SigKwOnlySlots": 3, "DC": 3, "DCFrozen": 2, "DCSlots": 2, "Plain": 3, "SlotsOnly": 3, "VarsOnly": draw(st.integers(0, 3)),
+                                     "PlainBadHint", "SlotsBadHint", "PlainBadHintSub", "SigKwOnly", "SigKwOnlySlots", "SlotsOnlySub"]))
+        n = {"SlotsOnlySub": 3, "PlainBadHint": 3, "SlotsBadHint": 3, "PlainBadHintSub": 3, "SigKwOnly": 3, "SigKwOnlySlots": 3, "DC": 3, "DCFrozen": 2, "DCSlots": 2, "Plain": 3, "SlotsOnly": 3, "VarsOnly": draw(st.integers(0, 3)),
              "SlotsAnn": 2, "SlotsAnnSub": 3, "SlotsReordered": 2, "DCSub": 3, "DCMapNames": 3, "SlotsMapNames": 2}[kind]
         vals = [draw(st.one_of(two_elem, anyval)) for _ in range(n)]
         return {"cat": cat, "kind": kind, "content": vals}
@@ -326,6 +334,10 @@ def build(c):
             x = Plain()
             x.first, x.second, x._hidden = v
             pairs = [("first", v[0]), ("second", v[1])]
+        elif kind == "SlotsOnlySub":
+            x = SlotsOnlySub()
+            x.x, x.y, x._z = v
+            pairs = [("x", v[0]), ("y", v[1])]
         elif kind == "SlotsOnly":
             x = SlotsOnly()
             x.x, x.y, x._z = v
@@ -407,7 +419,7 @@ def build(c):
 def nontrivial(c, x):
     if c["cat"] == "empty" or c["kind"] in ("generator", "iter", "map", "sizediter", "sizedcollectioniter"):
         return True
-    if c["cat"] == "namedtuple" or c["kind"] in ("DC", "Plain", "SlotsOnly", "VarsOnly", "SlotsAnn", "SlotsAnnSub", "SlotsReordered", "DCSub", "DCMapNames", "SlotsMapNames", "PlainBadHint", "SlotsBadHint", "PlainBadHintSub", "SigKwOnly", "SigKwOnlySlots"):
+    if c["cat"] == "namedtuple" or c["kind"] in ("DC", "Plain", "SlotsOnly", "VarsOnly", "SlotsAnn", "SlotsAnnSub", "SlotsReordered", "DCSub", "DCMapNames", "SlotsMapNames", "PlainBadHint", "SlotsBadHint", "PlainBadHintSub", "SigKwOnly", "SigKwOnlySlots", "SlotsOnlySub"):
         return True
     content = c["content"]
     if c["cat"] in ("pairs", "mixed") and content:
